@@ -30,10 +30,18 @@ SigProtDup  == Arr(<<ProtDup, EmptyMap, B0>>)
 
 ProtIv == Bs(<<161, 5, 65, 1>>)            \* {5: h'01'}
 MapPiv == Map(<< <<Nat2I(6), Bs(<<2>>)>> >>)  \* {6: h'02'}: valid on its own, also next to an IV in the OTHER header
-P1 == {B0, ProtOK, ProtIv, ProtBad, ProtTrail, ProtNoMap, Nat2I(1)} \cup (IF Wide THEN {ProtDup, Nil, EmptyMap, Ta} ELSE {})
-P2 == {EmptyMap, MapOK, MapPiv, MapBad, MapDup, Nil, B0} \cup (IF Wide THEN {EmptyArr, Nat2I(1), Ta} ELSE {})
+(* IV and Partial IV in the SAME header, in either wire order: ill-formed in every header slot, at every nesting level *)
+MapIvPiv  == Map(<< <<Nat2I(5), Bs(<<1>>)>>, <<Nat2I(6), Bs(<<2>>)>> >>)
+MapPivIv  == Map(<< <<Nat2I(6), Bs(<<2>>)>>, <<Nat2I(5), Bs(<<1>>)>> >>)
+ProtPivIv == Bs(<<162, 6, 65, 2, 5, 65, 1>>)
+ProtIvPiv == Bs(<<162, 5, 65, 1, 6, 65, 2>>)
+RecipPivIv == Arr(<<B0, MapPivIv, Nil>>)
+SigPivIv   == Arr(<<ProtPivIv, EmptyMap, B0>>)
+P1 == {B0, ProtOK, ProtIv, ProtBad, ProtTrail, ProtNoMap, Nat2I(1), ProtPivIv} \cup (IF Wide THEN {ProtIvPiv, ProtDup, Nil, EmptyMap, Ta} ELSE {})
+P2 == {EmptyMap, MapOK, MapPiv, MapBad, MapDup, Nil, B0, MapPivIv} \cup (IF Wide THEN {EmptyArr, Nat2I(1), Ta, MapIvPiv} ELSE {})
 P3 == {B1, B0, Nil, Nat2I(1), Tt, EmptyArr} \cup (IF Wide THEN {EmptyMap, Bool(TRUE), F15} ELSE {})
-P4 == {B1, Nil, Nat2I(1), EmptyArr, Arr(<<SigMin>>), Arr(<<SigAlg, SigBadSlot>>), Arr(<<RecipMin>>), Arr(<<RecipNest3>>), Arr(<<RecipBadIn3>>)}
+P4 == {B1, Nil, Nat2I(1), EmptyArr, Arr(<<SigMin>>), Arr(<<SigAlg, SigBadSlot>>), Arr(<<RecipMin>>), Arr(<<RecipNest3>>), Arr(<<RecipBadIn3>>),
+       Arr(<<SigPivIv>>), Arr(<<RecipMin, RecipPivIv>>)}
       \cup (IF Wide THEN {Arr(<<SigMin, SigAlg>>), Arr(<<SigDup>>), Arr(<<SigProtDup>>), Arr(<<RecipEmptyL>>), Arr(<<Recip5>>),
                           Arr(<<RecipMin, RecipNest>>), Arr(<<Nat2I(1)>>), EmptyMap, Tt} ELSE {})
 P5 == {Arr(<<RecipMin>>), Arr(<<RecipNest>>), Arr(<<RecipBadIn>>), EmptyArr, B1, Nil, Nat2I(1)}
